@@ -91,6 +91,21 @@ def _replay_chunk(args):
             elif idx % 3 == 2 and i % 2 == 0:
                 objs[i] = objs[i].copy()
         try:
+            # a droplet merged with ITSELF (both operands, and for the in-place / compiled path also the output, are one
+            # record): twice the volume at the same place, whatever the path
+            for i0 in sorted(objs)[:2]:
+                x = objs[i0].copy()
+                ref = x.copy().merge(x.copy())
+                y = x.copy()
+                y.merge(y, inplace=True)
+                z = x.copy()
+                cm(z.data, z.data, z.data)
+                for name, o in (("in-place", y), ("compiled", z), ("out-of-place", x.merge(x))):
+                    fo = np.concatenate([np.atleast_1d(o.data[f]).ravel() for f in o.data.dtype.names])
+                    fr = np.concatenate([np.atleast_1d(ref.data[f]).ravel() for f in ref.data.dtype.names])
+                    if any(not (np.isnan(u) and np.isnan(v_)) and ulps(u, v_) > 4 and abs(u - v_) > 1e-13 * max(1.0, abs(u), abs(v_))
+                           for u, v_ in zip(fo, fr)):
+                        fails.append(f"self-merge-{name}-differs")
             for h in rec["hist"]:
                 a, b = objs[h["i"]], objs[h["j"]]
                 ba, bb = a.data.tobytes(), b.data.tobytes()
